@@ -25,6 +25,7 @@ pub struct Peer {
     pub wr: OwnedWriteHalf,
     pub frames: Arc<Mutex<Vec<Vec<u8>>>>,
     reader: tokio::task::JoinHandle<()>,
+    pub half_closed: bool,
 }
 
 impl Peer {
@@ -63,7 +64,7 @@ pub async fn connect_peer_named(node: &Arc<Node>, listener: &TcpListener, name: 
             f2.lock().unwrap().push(f);
         }
     });
-    Some(Peer { wr: pc.wr, frames, reader })
+    Some(Peer { wr: pc.wr, frames, reader, half_closed: false })
 }
 
 fn pid_of(detail: &str, creation_fallback: u32) -> ExternalPid {
@@ -78,21 +79,42 @@ fn reply_frame(to: &ExternalPid, rid: i64, k: i64) -> Vec<u8> {
 }
 
 async fn run_one(sc: &Value, node: &Arc<Node>, listener: &TcpListener, sched: &AsyncSched, peer_slot: &mut Option<Peer>) -> Value {
-    let conn = sc["conn"].as_str().unwrap_or("up").to_string();
     let ncallers = sc["callers"].as_u64().unwrap_or(1) as usize;
     let hist: Vec<(String, i64)> = sc["hist"].as_array().map(|a| a.iter().map(|e| (e[0].as_str().unwrap_or("").to_string(), e[1].as_i64().unwrap_or(0))).collect()).unwrap_or_default();
+    // the state of the connection the behaviour starts in is its first history entry (Rpc!ConnCode)
+    let conn = match hist.first() {
+        Some((a, c)) if a == "start" => ["up", "absent", "broken", "closing"].get(*c as usize).copied().unwrap_or("up").to_string(),
+        _ => sc["conn"].as_str().unwrap_or("up").to_string(),
+    };
     let mut notes: Vec<String> = Vec::new();
     // which callers time out in the model: they get the short timer
     let times_out: Vec<bool> = (1..=ncallers as i64).map(|c| hist.iter().any(|(a, x)| a == "timeout" && *x == c)).collect();
     sched.set_free_run(true);
     // make sure the connection is in the state the scenario starts from
     let target = if conn == "absent" { "ghost@127.0.0.1" } else { PEER };
+    // the peer closes its side only (FIN): the receiver sees the end of the stream, the socket still takes writes
+    async fn half_close(peer_slot: &mut Option<Peer>, sched: &AsyncSched, notes: &mut Vec<String>) {
+        use tokio::io::AsyncWriteExt;
+        if let Some(p) = peer_slot.as_mut() {
+            let _ = p.wr.shutdown().await;
+            p.half_closed = true;
+        }
+        match sched.wait_parked(RX, STEP).await {
+            Some((l, _)) if l == "rx.frame" => {
+                sched.release(RX);
+                if sched.wait_parked(RX, STEP).await.map(|x| x.0) != Some("rx.closing".to_string()) {
+                    notes.push("receiver did not reach rx.closing after the peer closed its side".into());
+                }
+            }
+            other => notes.push(format!("receiver did not notice the end of the stream: {other:?}")),
+        }
+    }
     if conn != "absent" {
-        if peer_slot.is_none() || !node.connections().contains_key(PEER) {
+        if peer_slot.is_none() || peer_slot.as_ref().map(|p| p.half_closed).unwrap_or(false) || !node.connections().contains_key(PEER) {
             if let Some(p) = peer_slot.take() {
                 p.kill();
             }
-            for _ in 0..50 {
+            for _ in 0..200 {
                 if !node.connections().contains_key(PEER) {
                     break;
                 }
@@ -131,6 +153,9 @@ async fn run_one(sc: &Value, node: &Arc<Node>, listener: &TcpListener, sched: &A
             }
             other => notes.push(format!("receiver did not notice the reset: {other:?}")),
         }
+    }
+    if conn == "closing" {
+        half_close(peer_slot, sched, &mut notes).await;
     }
     let mut handles: HashMap<i64, tokio::task::JoinHandle<Result<OwnedTerm, String>>> = HashMap::new();
     let mut pids: HashMap<i64, ExternalPid> = HashMap::new();     // rid -> reply pid
@@ -194,6 +219,21 @@ async fn run_one(sc: &Value, node: &Arc<Node>, listener: &TcpListener, sched: &A
                         break;
                     }
                     tokio::time::sleep(Duration::from_micros(300)).await;
+                }
+            }
+            "peer_close" => half_close(peer_slot, sched, &mut notes).await,
+            "deregister" => {
+                if sched.parked_at(RX).map(|x| x.0) == Some("rx.closing".to_string()) {
+                    sched.release(RX);
+                } else {
+                    notes.push("receiver is not waiting to deregister the connection".into());
+                }
+                let t0 = std::time::Instant::now();
+                while node.connections().contains_key(PEER) && t0.elapsed() < STEP {
+                    tokio::time::sleep(Duration::from_micros(300)).await;
+                }
+                if node.connections().contains_key(PEER) {
+                    notes.push("connection still registered after the receiver was released".into());
                 }
             }
             "other_close" => {
